@@ -111,7 +111,10 @@ impl Pw {
                 }
             }
         }
-        if msg.ops().is_some() {
+        if let Some(ops) = msg.ops() {
+            // a reset as the statement defines it (delta from version 0 whose watermark is above the
+            // copy's watermark and max version), not "the watermark moved"
+            let resets = crate::e1::world::stated_resets(ops, &before_view, &after_view).map(|v| v.len()).unwrap_or(resets);
             let expected = if resets > 0 { 1 } else { 0 };
             if cbs != expected {
                 return Err(self.v("C20", "C20.count", format!("{what}: {cbs} callback(s) for a message that reset {resets} copies")));
